@@ -151,7 +151,7 @@ impl Watch {
             }};
         }
         let epoch_pre = self.c13.epoch;
-        run!(self.arm.c07, |a: &mut Acc| self.c07.on(rec, &ch, a));
+        run!(self.arm.c07, |a: &mut Acc| self.c07.on(rec, &ch, fo.as_ref(), a));
         run!(self.arm.c08, |a: &mut Acc| self.c08.on(rec, fo.as_ref(), a));
         let conn_post = self.c08.conn;
         run!(self.arm.c09, |a: &mut Acc| self.c09.on(rec, &pres, codec, a));
@@ -163,7 +163,7 @@ impl Watch {
             self.c10.inc = rec.post.snap.incarnation;
         }
         run!(self.arm.c13, |a: &mut Acc| self.c13.on(rec, conn_pre, conn_post, a));
-        run!(self.arm.c11, |a: &mut Acc| self.c11.on(rec, epoch_pre, codec, a));
+        run!(self.arm.c11, |a: &mut Acc| self.c11.on(rec, &pres, epoch_pre, codec, a));
         run!(self.arm.c12, |a: &mut Acc| self.c12.on(rec, &pres, conn_pre, conn_post, epoch_pre, codec, a));
         run!(self.arm.c19, |a: &mut Acc| self.c19.on(rec, &ch, codec, a));
         if self.arm.c15 || self.arm.c16 {
